@@ -50,9 +50,8 @@ def _frame_lines(items):
     r = drive.collect(rx.from_(items).pipe(line.frame()))
     if not r.ok:
         raise Violation('line.frame failed', result=r.brief())
-    if len(r.items) != len(items):
-        raise Violation('line.frame emitted %d frames for %d items' % (len(r.items), len(items)))
-    return r.items
+    # only the CONCATENATION of what frame() emits is specified (one output per item is not): returned as one piece
+    return [''.join(r.items)]
 
 
 def _check_line_stream(items, tail, stream, cuts):
@@ -145,12 +144,15 @@ def _frame_lp(items, p, order):
     r = drive.collect(rx.from_(items).pipe(lp.frame(prefix_size=p, byteorder=order)))
     if not r.ok:
         raise Violation('length_prefix.frame failed', result=r.brief())
-    if len(r.items) != len(items):
-        raise Violation('length_prefix.frame emitted %d frames for %d items' % (len(r.items), len(items)))
-    for f, i in zip(r.items, items):
-        if len(f) != len(i) + p:
-            raise Violation('frame has wrong size', frame=f, item=i)
-    return r.items
+    # only the CONCATENATION of what frame() emits is specified; the format fixes the size of each frame inside it
+    full = b''.join(r.items)
+    if len(full) != sum(len(i) + p for i in items):
+        raise Violation('the framed stream has %d bytes, the items + prefixes have %d' % (len(full), sum(len(i) + p for i in items)))
+    frames, q = [], 0
+    for i in items:
+        frames.append(full[q:q + len(i) + p])
+        q += len(i) + p
+    return frames
 
 
 def _check_lp_stream(items, frames, stream, cuts, p, order):
